@@ -100,3 +100,13 @@ CLAIMED["C02"] = dict(
         "symbol coder: measured no verdict); chains of 3-4 filters; headers above 32 bytes; sufficiency of the bound for "
         "real compressed data.")
 NOT_APPLICABLE.pop("C02", None)
+CLAIMED["C05"] = dict(
+   text="Container-level detection of damage, decided on the real stream_decode state machine from arbitrary states and on "
+        "the real header decoders: Stream Footer accepted only if valid per spec AND Backward Size == Index size AND flags "
+        "== header flags (all 2^96 footers); Stream Padding only in multiples of four, identical under any split; header "
+        "split equivalence; Block -> Index record; every single-bit flip of accepted Stream Headers / Block Headers rejected "
+        "with the real CRC32; a Stream never ends inside a Block.",
+   note="Index hash, Block decoder and LZMA payload are contract stubs here (their own obligations: C03/C04/C16 when present). "
+        "OUTSIDE: corruption inside the LZMA bit stream (detected through the Check, which needs the payload decoder); "
+        "multi-byte overwrites (CRC collisions are true counterexamples); .lz/.lzma truncation is under C16.")
+NOT_APPLICABLE.pop("C05", None)
